@@ -10,6 +10,9 @@ Two families of schedules are enumerated for every scenario:
     schedule within `dev` deviations of it.  A provider thread that is slow to pick up what the service thread queued is exactly
     what a loaded interpreter produces, and it takes many consecutive non-default choices - out of reach of a small preemption bound.
 """
+import json
+import os
+
 from . import common, e3, assoc, dsgen
 
 IMPL = '1.2.840.10008.1.2'
@@ -872,8 +875,11 @@ def extend(rep, prop, tier, seed, module):
     """Run the whole-stack cases of `prop` (through module.run_case so that replays go through the check's own entry point)."""
     tot = {'schedules': 0, 'decisions': 0, 'cases': 0, 'capped': 0, 'outcomes': 0}
     cs = []
+    only = os.environ.get('VP_STACK_ONLY')       # tools/stack_only.py: the scenarios whose description contains this text
     for c in cases_for(prop, tier):
         c = dict(c)
+        if only and only not in json.dumps(c):
+            continue
         c['bound'] = 2 if tier == 'thorough' else 1
         c['dev'] = 1 if tier == 'thorough' else 0
         if c.get('clients', 1) > 1 or c.get('n', 0) >= 3:
